@@ -64,10 +64,10 @@ def observe(c):
   d = lg.build(c['leaf'])
   s = np.array(fl(c['s']))
   p = float(c['p'][0]) if c.get('pk') == 'scalar' else np.array(fl(c['p']))
-  dv = np.array(d.deriv(s, p)).reshape(-1)
+  dv = np.array(core.maybe_stale(c, d.deriv, s, p)).reshape(-1)
   if dv.shape != (c['leaf']['n'],):
     dv = dv * np.ones(c['leaf']['n'])
-  return {'cost': fr(d.cost(s, p)), 'deriv': fr(dv)}
+  return {'cost': fr(core.maybe_stale(c, d.cost, s, p)), 'deriv': fr(dv)}
 
 
 def coq_case(c, o):
